@@ -87,10 +87,9 @@ Definition item_given2 (given : list nat) (it : item) : list nat :=
   end.
 
 Section Classes.
-Variable cs : list ctxspec.
-Variable ic : ctxspec.
-Let p := mkP cs (Some ic) false.
-Let i0 := init_ctx ic.
+(** any parser, any state [i0] of the initial context *)
+Variable p : parser.
+Variable i0 : rctx.
 
 Lemma value_free_args c s args :
   map r_spec args = cx_args c -> value_free c s = true ->
@@ -374,9 +373,11 @@ Inductive Rep (i0 : rctx) (done : list rctx) (cur : rctx) : bool -> machine -> P
 
 Section Compose.
 Variable cs : list ctxspec.
-Variable ic : ctxspec.
-Let p := mkP cs (Some ic) false.
-Let i0 := init_ctx ic.
+(** any parser over [cs] and ANY state [i0] of the initial context: core options
+    seen earlier may have modified it (used by C18) *)
+Variable p : parser.
+Hypothesis Pcs : p_ctxs p = cs.
+Variable i0 : rctx.
 Hypothesis Pok : parser_ok cs = true.
 Hypothesis Npl : names_plain cs = true.
 
@@ -410,11 +411,6 @@ Fixpoint calls_ok2 (calls : list call) : bool :=
   | k :: rest => call_ok2 (match rest with [] => true | _ => false end) k && calls_ok2 rest
   end.
 
-Definition guard_wide2 (inv : invocation) : bool :=
-  parser_ok cs && names_plain cs && negb (has_missing (init_ctx ic))
-  && match inv with [] => false | _ => true end
-  && calls_ok2 inv.
-
 Definition final_ctx2 (k : call) : rctx :=
   match nth_error cs (k_task k) with
   | Some c => with_args (init_ctx c) (fold_left run_item2 (k_items k) (map init_arg (cx_args c)))
@@ -433,17 +429,17 @@ Proof.
   intros G Ok' Iw I. destruct it as [o|l].
   - cbn [item_ok2] in Ok'. cbn [run_item2 item_given2 spell_item].
     destruct (is_bare (One o)) eqn:B.
-    + destruct (bare_steps cs ic c given o done cur fl got G Ok' Iw I)
+    + destruct (bare_steps p i0 c given o done cur fl got G Ok' Iw I)
         as (r & Nr & Tv & Op & Raw & Nl & Hm & S & E & Iw').
       exists (pending i0 done cur (o_arg o) false). split; [exact S|]. split; [|exact Iw'].
       rewrite E. eapply Rep_pend; eauto.
     + apply orb_true_iff in Ok'. destruct Ok' as [Ok'|Ok'].
-      * destruct (one_steps cs ic c given o done cur fl got G Ok' Iw I) as (fl' & got' & S & I' & Iw').
+      * destruct (one_steps cs p Pcs i0 c given o done cur fl got G Ok' Iw I) as (fl' & got' & S & I' & Iw').
         eexists. split; [exact S|]. split; [constructor; exact I' | exact Iw'].
-      * destruct (one_steps_dash cs ic c given o done cur fl got G Ok' Iw I) as (fl' & got' & S & I' & Iw').
+      * destruct (one_steps_dash p i0 c given o done cur fl got G Ok' Iw I) as (fl' & got' & S & I' & Iw').
         eexists. split; [exact S|]. split; [constructor; exact I' | exact Iw'].
   - cbn [item_ok2] in Ok'. cbn [run_item2 item_given2 is_bare].
-    destruct (cluster_steps cs ic c given l done cur fl got G Ok' Iw I) as (fl' & got' & S & I' & Iw').
+    destruct (cluster_steps cs p Pcs i0 c given l done cur fl got G Ok' Iw I) as (fl' & got' & S & I' & Iw').
     eexists. split; [exact S|]. split; [constructor; exact I' | exact Iw'].
 Qed.
 
@@ -466,7 +462,7 @@ Proof.
   econstructor; [|exact S2]. rewrite <- S1.
   destruct (presplit_head (resolved i0 done cur0 i r false) t eq_refl D C) as [pu [Ps Pe]].
   apply (step_pending p i0 done cur0 i r Nr Tv Op Raw Nl Hm false t (head_of t, pu) Ps).
-  - cbn [fst p_ctxs p]. apply names_plain_dash; [exact Npl|].
+  - cbn [fst]. apply names_plain_dash; [exact Npl|].   (* [subst] above replaced cs by p_ctxs p *)
     unfold clean_flag in C. rewrite !andb_true_iff in C. tauto.
   - cbn [fst]. apply orb_true_iff in F. destruct F as [F|F].
     + left. unfold ctx_has_flag. rewrite find_flag_args, Sh.
@@ -515,7 +511,7 @@ Proof.
     + apply orb_true_iff in Ok'. destruct Ok' as [Ok'|Ok'].
       * exact (one_vals cs c given o args os G Ok' Iw V).
       * exact (one_vals_dash c given o args os G Ok' Iw V).
-  - exact (cluster_vals cs ic c given l args os G Ok' Iw V).
+  - exact (cluster_vals cs p Pcs i0 c given l args os G Ok' Iw V).
 Qed.
 
 Lemma item_clean2 c given it :
@@ -621,8 +617,9 @@ Proof.
     destruct (nth_error cs (k_task k)) as [c|] eqn:N; [|discriminate].
     rewrite !andb_true_iff in Ck'. destruct Ck' as [[[Nm Pl] G] Is].
     unfold plain in Pl. rewrite negb_true_iff in Pl.
-    pose proof (step_task_name p i0 done cur fl got (k_as k) c I Hm Pl
-                               (named_find cs ic Pok k c N Nm)) as S0.
+    assert (Fc : find_ctx (p_ctxs p) (k_as k) = Some c)
+      by (rewrite Pcs; exact (named_find cs (mkCtx None [] []) Pok k c N Nm)).
+    pose proof (step_task_name p i0 done cur fl got (k_as k) c I Hm Pl Fc) as S0.
     assert (I1 : inert (MS i0 (done ++ [cur]) (init_ctx c) fl got)) by (apply inert_snoc; exact I).
     destruct (call_items2 k c _ (done ++ [cur]) fl got N Ck I1) as (m1 & pend1 & S1 & R1 & Pl1 & Hm1 & Ob).
     assert (Pe1 : pend1 = true -> rest = []).
@@ -669,6 +666,21 @@ Proof.
   constructor; [apply plain_not_ddash; exact Pl|]. eapply items_clean2; eauto.
 Qed.
 
+End Compose.
+
+Section Final.
+Variable cs : list ctxspec.
+Variable ic : ctxspec.
+Let p := mkP cs (Some ic) false.
+Let i0 := init_ctx ic.
+Hypothesis Pok : parser_ok cs = true.
+Hypothesis Npl : names_plain cs = true.
+
+Definition guard_wide2 (inv : invocation) : bool :=
+  parser_ok cs && names_plain cs && negb (has_missing (init_ctx ic))
+  && match inv with [] => false | _ => true end
+  && calls_ok2 cs inv.
+
 (** *** the round trip *)
 Theorem spell_roundtrip_widest2 inv :
   guard_wide2 inv = true ->
@@ -681,7 +693,7 @@ Proof.
   unfold guard_wide2. rewrite !andb_true_iff, negb_true_iff.
   intros [[[[_ _] Hi] Ne] Cs].
   destruct inv as [|k rest]; [discriminate|]. clear Ne.
-  pose proof (spell_clean2 (k :: rest) Cs) as Cl.
+  pose proof (spell_clean2 cs (k :: rest) Cs) as Cl.
   cbn [calls_ok2] in Cs. apply andb_true_iff in Cs. destruct Cs as [Ck Cr].
   pose proof Ck as Ck'. unfold call_ok2 in Ck'.
   destruct (nth_error cs (k_task k)) as [c|] eqn:N; [|discriminate].
@@ -689,12 +701,12 @@ Proof.
   unfold plain in Pl. rewrite negb_true_iff in Pl.
   pose proof (step_first_task p i0 (k_as k) c Hi Pl (named_find cs ic Pok k c N Nm)) as S0.
   assert (I0 : inert (MS i0 [] (init_ctx c) None false)) by exact Logic.I.
-  destruct (call_items2 k c _ [] None false N Ck I0) as (m1 & pend1 & S1 & R1 & Pl1 & Hm1 & Ob1).
+  destruct (call_items2 cs p eq_refl i0 Pok Npl k c _ [] None false N Ck I0) as (m1 & pend1 & S1 & R1 & Pl1 & Hm1 & Ob1).
   assert (Pe1 : pend1 = true -> rest = []).
   { intros X. specialize (Pl1 X). destruct rest; [reflexivity | discriminate Pl1]. }
-  destruct (calls_after rest [] (final_ctx2 k) pend1 m1 R1 Pe1 Hm1 Cr)
+  destruct (calls_after cs p eq_refl i0 Pok Npl rest [] (final_ctx2 cs k) pend1 m1 R1 Pe1 Hm1 Cr)
     as (m2 & dn & cu & pend2 & S2 & R2 & Hm2 & E2 & Fa).
-  destruct (finish_Rep dn cu pend2 m2 R2 Hm2) as [m' [Fi [Rc Un]]].
+  destruct (finish_Rep i0 dn cu pend2 m2 R2 Hm2) as [m' [Fi [Rc Un]]].
   assert (St : steps p (M0 i0) (spell cs (k :: rest)) m2).
   { unfold spell. cbn [flat_map]. unfold spell_call at 1. rewrite N. cbn [app].
     econstructor; [exact S0|]. cbn [app]. eapply steps_app; [exact S1 | exact S2]. }
@@ -709,13 +721,13 @@ Proof.
   - cbn [pr_ctxs]. rewrite Rc. reflexivity.
   - cbn [pr_ctxs]. rewrite Rc. cbn [tl]. rewrite E2.
     cbn [app map expected]. unfold expected. cbn [map]. f_equal; [exact Ob1|].
-    rewrite map_map. apply (forall2_map_eq (expected_call cs) (fun k => obs_of_ctx (final_ctx2 k))).
+    rewrite map_map. apply (forall2_map_eq (expected_call cs) (fun k => obs_of_ctx (final_ctx2 cs k))).
     exact Fa.
   - cbn [pr_unparsed]. exact Un.
   - reflexivity.
 Qed.
 
-End Compose.
+End Final.
 
 (** non-vacuity: a bare optional-value flag followed by an own flag
     ("--log --no-clean"), dash-leading values in all three spellings
